@@ -112,4 +112,10 @@ TEXT.update({
            "core::fmt machinery modelled; observers listed in the evidence; inputs are reference encodings of every type (shapes bounded).",
            "MIR symbolic execution + z3, panic-freedom of observers"),
 })
+TEXT.update({
+ "C11": _t("Symbolic execution of parse -> build -> parse on fully/partly symbolic received messages: for every path on which the real parser "
+           "accepts, both serialisers must succeed and z3 is asked for bytes on which the re-parsed packet differs from the first in any field.",
+           "DESIGN.md section 3 C11", "Bounded message shapes (see evidence). One known finding is listed in known_findings.txt (unnamed RCODEs).",
+           "MIR symbolic execution + z3: parse/re-serialise/parse equality on symbolic inputs"),
+})
 NA_REASON = {}
